@@ -76,6 +76,9 @@ pub struct Ctx {
     pub hash: u64,
     /// number of generator decisions that were diverted because of a listed known finding
     pub excluded_known: u32,
+    /// oracle evaluations performed inside this case beyond the case itself (e.g. every fault of a fault
+    /// enumeration applied to one generated message)
+    pub inner_evaluations: u32,
 }
 
 impl Ctx {
@@ -87,6 +90,7 @@ impl Ctx {
             dup_of_enum: false,
             hash: 0,
             excluded_known: 0,
+            inner_evaluations: 0,
         }
     }
     pub fn label(&mut self, l: &'static str) {
@@ -172,6 +176,7 @@ pub struct CaseReport {
     pub dup_of_enum: bool,
     pub hash: u64,
     pub excluded_known: u32,
+    pub inner_evaluations: u32,
     pub rendering: Option<String>,
 }
 
@@ -235,6 +240,7 @@ fn finish<P: PropImpl>(p: &P, mut ctx: Ctx, case: P::Case, render: bool) -> Case
         dup_of_enum: ctx.dup_of_enum,
         hash: ctx.hash,
         excluded_known: ctx.excluded_known,
+        inner_evaluations: ctx.inner_evaluations,
         rendering,
     }
 }
